@@ -230,7 +230,7 @@ func parent(p *run.Prop) int {
 	os.MkdirAll(dir, 0o755)
 	defer os.RemoveAll(dir)
 
-	timeout := 20 * time.Minute
+	timeout := 8 * time.Minute
 	if *fTier == "thorough" {
 		timeout = 5 * time.Hour
 	}
@@ -364,6 +364,12 @@ func parent(p *run.Prop) int {
 		fmt.Printf("INCONCLUSIVE: property=%s %s\n", p.ID, s)
 	}
 
+	if p.Post != nil && violations == 0 {
+		for _, s := range p.Post(counters) {
+			inconclusive = append(inconclusive, s)
+			fmt.Printf("INCONCLUSIVE: property=%s %s\n", p.ID, s)
+		}
+	}
 	if len(samples) == 0 {
 		samples = append(samples, "no case produced a sample")
 	}
